@@ -1153,8 +1153,10 @@ class HtmlWriter:
                 try:
                     if evaluate(anchor[1:]) == container_address:
                         anchor = '#{}'.format(self.asm_anchor(container_address, True))
+                    else:
+                        anchor = '#RAW({})'.format(anchor)
                 except ValueError:
-                    pass
+                    anchor = '#RAW({})'.format(anchor)
             elif address != container_address:
                 anchor = '#{}'.format(self.asm_anchor(address, True))
             href = self._asm_relpath(cwd, container_address, code_id) + anchor
